@@ -36,6 +36,8 @@ def configs(tier):
             {'group': 'smooth_reads'}, {'group': 'rejected_update'},
             {'group': 'smooth_step'}, {'group': 'smooth_base'}, {'group': 'smooth_linear'},
             {'group': 'smooth_ctor'}]
+    cfgs += [{'group': 'independent_copies', 'cls': c} for c in ('welford', 'smoothing')]
+    cfgs += [{'group': 'typed_values', 'cls': c} for c in ('welford', 'smoothing')]
     cfgs += [{'group': 'welford_explicit', 'n': n, '_cost': n} for n in range(1, nw + 1)]
     cfgs += [{'group': 'smooth_explicit', 'n': n, '_cost': n} for n in range(1, ns + 1)]
     return cfgs
@@ -321,3 +323,64 @@ def _rejected_update(env, cfg):
 
 
 META['explanation'] += ' Further groups: arbitrary read orders of mean / var / std around updates; an update whose value cannot be processed (raises at its k-th arithmetic use) leaves count and statistics untouched.'
+
+
+def _independent_copies(env, cfg):
+    """a deep copy of a tracker (the library copies its base tracker for every loss / feature it tracks) is an independent
+    tracker: updating the copy leaves the original's statistics where they were, and vice versa"""
+    import copy
+    from fractions import Fraction
+    if cfg['cls'] == 'welford':
+        t = WelfordTracker()
+    else:
+        t = guarded(env, 'ctor', ExponentialSmoothingTracker, Fraction(1, 4))
+    v0, v1, v2 = env.real('v0'), env.real('v1'), env.real('v2')
+    guarded(env, 'update', t.update, v0)
+    c = guarded(env, 'deepcopy', copy.deepcopy, t)
+    before = (t.get(), t.N, getattr(t, 'var', 0))
+    guarded(env, 'update_copy', c.update, v1)
+    env.claim('original_untouched_by_an_update_of_its_copy',
+              And(eq(t.get(), before[0]), eq(t.N, before[1]), eq(getattr(t, 'var', 0), before[2])))
+    cb = (c.get(), c.N, getattr(c, 'var', 0))
+    guarded(env, 'update', t.update, v2)
+    env.claim('copy_untouched_by_an_update_of_the_original', And(eq(c.get(), cb[0]), eq(c.N, cb[1]), eq(getattr(c, 'var', 0), cb[2])))
+    fresh = WelfordTracker() if cfg['cls'] == 'welford' else ExponentialSmoothingTracker(Fraction(1, 4))
+    fresh.update(v0)
+    fresh.update(v1)
+    env.claim('copy_continues_like_a_tracker_of_its_own', And(eq(c.get(), fresh.get()), eq(c.N, fresh.N)))
+    env.canary('copy_is_not_frozen', eq(c.get(), before[0]))
+
+
+def _typed_values(env, cfg):
+    """the numbers of a stream come in every numeric type Python and NumPy offer: ints, bools, floats, NumPy signed and
+    UNSIGNED integers of every width - the statistics are those of their values"""
+    import numpy as np
+    from fractions import Fraction
+    streams = [
+        [np.uint8(5), np.uint8(3), np.uint8(250), np.uint8(0)],
+        [np.uint16(7), 2, np.uint8(9), 1.5],
+        [np.int8(-4), np.int8(100), np.int8(-100)],
+        [True, False, 3, np.uint32(4)],
+        [np.uint64(6), np.uint64(2)],
+        [0, np.uint8(1), np.uint8(2)],
+    ]
+    alpha = Fraction(1, 4)
+    for s_i, stream in enumerate(streams):
+        t = WelfordTracker() if cfg['cls'] == 'welford' else ExponentialSmoothingTracker(0.25)
+        exact = [Fraction(int(v)) if not isinstance(v, float) else Fraction(v) for v in stream]
+        for n, v in enumerate(stream, start=1):
+            guarded(env, 'update', t.update, v)
+            seen = exact[:n]
+            if cfg['cls'] == 'welford':
+                mean = sum(seen) / n
+                var = sum((a - mean) ** 2 for a in seen) / n
+                ok = abs(Fraction(float(t.mean)) - mean) <= Fraction(1, 10 ** 9) and abs(Fraction(float(t.var)) - var) <= Fraction(1, 10 ** 6)
+                env.claim('welford_statistics_of_typed_values', ok and t.N == n,
+                          detail=f"stream {[repr(x) for x in stream[:n]]}: mean {t.mean} (exact {float(mean)}), var {t.var} (exact {float(var)})")
+            else:
+                sm = sum(alpha * (1 - alpha) ** (n - 1 - i) * a for i, a in enumerate(seen))
+                env.claim('smoothed_value_of_typed_values', abs(Fraction(float(t.get())) - sm) <= Fraction(1, 10 ** 9) and t.N == n,
+                          detail=f"stream {[repr(x) for x in stream[:n]]}: {t.get()} (exact {float(sm)})")
+
+
+META['explanation'] += ' independent_copies: deep copies of a tracker do not share state. typed_values: concrete streams of Python / NumPy numbers of every integer width and signedness.'
